@@ -529,4 +529,54 @@ func c06Dispatch(c *Ctx) {
 		}
 		c.check(good && n == 1, "handleTrzsz/mode="+string(rune(w.letter)), c.pos(f.Pos()), "this mode letter runs exactly its action", "the mode letter '"+string(rune(w.letter))+"' does not run exactly its action (download for S, upload for R, directory upload for D)")
 	}
+	// and the servers print the letter of what they are about to do: trz -> R, trz -d -> D, tsz -> S
+	for _, m := range []struct{ fn string; plain string }{{"TrzMain", "R"}, {"TszMain", "S"}} {
+		mf := c.fn(m.fn)
+		found := false
+		for _, ci := range callsIn(mf, idIs("fmt.Sprintf")) {
+			fs, ok := constString(ci.Common().Args[0])
+			if !ok || !strings.Contains(fs, "::TRZSZ:TRANSFER:") {
+				continue
+			}
+			found = true
+			if strings.Contains(fs, "::TRZSZ:TRANSFER:"+m.plain+":") {
+				c.ok(m.fn+"/mode-letter", c.ipos(ci), "the trigger carries the literal '"+m.plain+"'")
+				continue
+			}
+			els, okE := sliceElems(ci.Common().Args[1])
+			if !okE || len(els) < 1 {
+				c.bad(m.fn+"/mode-letter", c.ipos(ci), "cannot see the mode letter printed in the trigger")
+				continue
+			}
+			good := true
+			sawD := false
+			for _, l := range origins(els[0].V, originOpts{}) {
+				s, isS := constString(l.V)
+				if isS && s == "D" {
+					sawD = true
+				}
+				dir, known := false, false
+				for _, fc := range l.facts() {
+					if isFieldLoad("Directory")(fc.V) {
+						dir, known = fc.Pol, true
+					}
+				}
+				switch {
+				case isS && s == m.plain:
+					good = good && !(known && dir)
+				case isS && s == "D" && m.fn == "TrzMain":
+					good = good && known && dir
+				default:
+					good = false
+				}
+			}
+			if m.fn == "TrzMain" && !sawD {
+				good = false
+			}
+			c.check(good, m.fn+"/mode-letter", c.ipos(ci), "the trigger carries '"+m.plain+"' (or 'D' exactly when a directory upload was asked for)", "the trigger's mode letter does not match what the server is about to do")
+		}
+		if !found {
+			c.bad(m.fn+"/mode-letter", c.pos(mf.Pos()), "the trigger line is no longer printed here")
+		}
+	}
 }
